@@ -50,10 +50,14 @@ def main():
             'add_only': True,
         },
         'engines': [
-            {'name': 'A-sequential', 'path': 'mc/seq.py',
+            {'name': 'A-sequential', 'path': 'mc/props',
              'serves_properties': [p for p in ORDER if CHECKS.get(p, {}).get('engine') == 'A-sequential'],
              'kind_free_text': 'explicit-state BFS / bounded-exhaustive enumeration over the real objects, '
                                'history-based reference models as oracle'},
+            {'name': 'C-call-interleavings', 'path': 'mc/conc',
+             'serves_properties': ['C06', 'C07', 'C14', 'C15', 'C16', 'C19'],
+             'kind_free_text': 'two calls into the sequential API in two threads, every single-preemption interleaving at line / bytecode granularity, '
+                               'each execution in a fresh fork of a pristine interpreter (hidden shared state: lazily built globals, caches, scratch attributes)'},
             {'name': 'B-schedules', 'path': 'mc/sched',
              'serves_properties': [p for p in ORDER if CHECKS.get(p, {}).get('engine') == 'B-schedules'],
              'kind_free_text': 'stateless deviation-bounded and state-cached schedule exploration of the real server/client '
